@@ -48,6 +48,13 @@ package diff
 //@   call (*Canonicalizer).CanonicalizeFunction assert [C17.cap] len(fn.Blocks) <= MaxFunctionBlocks
 //@   call computeVirtualControlFlow assert [C17.cap] len(fn.Blocks) <= MaxFunctionBlocks
 //@   ensures [C17.cap] true
+//@   ghost acq int
+//@   ghost rel int
+//@   init acq = 0
+//@   init rel = 0
+//@   call ir.AcquireCanonicalizer update acq = acq + 1
+//@   call ir.ReleaseCanonicalizer update rel = rel + 1
+//@   ensures [C01.pool] acq == rel && acq <= 1
 //@   ensures [C04.marker] len(fn.Blocks) > MaxFunctionBlocks ==> result.Fingerprint == "OVERSIZED"
 
 // ---- C10: reports do not depend on map iteration order
